@@ -44,6 +44,7 @@ struct Child {
   [[noreturn]] void finish();
 };
 extern Child *g_child;
+extern volatile int g_waiting_for_grandchild;   // set around waits for a forked/exec'd helper process
 
 // ---- engines ----------------------------------------------------------------
 struct GenArgs {
